@@ -17,6 +17,7 @@ func init() {
 	zzsv.Register("ZZ_C07_DeepRecursion", ZZ_C07_DeepRecursion)
 	zzsv.Register("ZZ_C07_LongHistory", ZZ_C07_LongHistory)
 	zzsv.Register("ZZ_C07_ObjectHistory", ZZ_C07_ObjectHistory)
+	zzsv.Register("ZZ_C07_Reconfigured", ZZ_C07_Reconfigured)
 }
 
 type zzC07Obj struct {
@@ -302,4 +303,66 @@ func ZZ_C07_ObjectHistory(sv *zzsv.T) {
 	o2, e2 := fresh.Execute(last)
 	zzDescribe(sv, "used", o1, e1)
 	zzCompareTwo(sv, "C07.objects", used, fresh, o1, o2, e1, e2, nil, nil, []string{"n"})
+}
+
+// ZZ_C07_Reconfigured: what the host configured *last* is what a run
+// depends on, not what earlier runs saw: after runs that already called a
+// host function (or a built-in), the host registers another function under
+// that name, overrides a built-in, or sets a variable again; the next run on
+// the used evaluator agrees with a fresh evaluator configured the same way.
+func ZZ_C07_Reconfigured(sv *zzsv.T) {
+	scripts := []string{
+		"n = n + 1; return h(F) + len(S) + v;",
+		"function w(p) { return h(p) + len(S); } n = n + 1; x = 0; foreach k in [1, 2] { x = x + w(F); } return x + v;",
+	}
+	src := scripts[sv.Choice("script", len(scripts))]
+	sv.Note("script", src)
+	f := sv.Int64("F")
+	r1 := sv.Int64("r1")
+	r2 := sv.Int64("r2")
+	v2 := sv.Int64("v2")
+	mkH := func(r int64) func([]object.Object) object.Object {
+		return func(args []object.Object) object.Object {
+			return &object.Integer{Value: args[0].(*object.Integer).Value + r}
+		}
+	}
+	fakeLen := func(args []object.Object) object.Object { return &object.Integer{Value: 100} }
+	obj := struct {
+		F int64
+		S string
+	}{f, "abc"}
+	used := New(src)
+	used.AddFunction("h", mkH(r1))
+	used.SetVariable("n", &object.Integer{Value: 0})
+	used.SetVariable("v", &object.Integer{Value: 1})
+	sv.Assume(used.Prepare() == nil)
+	warm := 1 + sv.Choice("runs_before", 2)
+	for i := 0; i < warm; i++ {
+		_, err := used.Execute(obj)
+		sv.Assert("C07.reconf.warm", err == nil)
+	}
+	what := sv.Choice("change", 4)
+	fresh := New(src)
+	fresh.AddFunction("h", mkH(r1))
+	fresh.SetVariable("n", &object.Integer{Value: int64(warm)})
+	fresh.SetVariable("v", &object.Integer{Value: 1})
+	for _, e := range []*Eval{used, fresh} {
+		switch what {
+		case 0:
+			e.AddFunction("h", mkH(r2))
+		case 1:
+			e.AddFunction("len", fakeLen)
+		case 2:
+			e.SetVariable("v", &object.Integer{Value: v2})
+		default:
+			e.AddFunction("h", mkH(r2))
+			e.AddFunction("len", fakeLen)
+			e.SetVariable("v", &object.Integer{Value: v2})
+		}
+	}
+	sv.Assume(fresh.Prepare() == nil)
+	o1, e1 := used.Execute(obj)
+	o2, e2 := fresh.Execute(obj)
+	zzDescribe(sv, "used", o1, e1)
+	zzCompareTwo(sv, "C07.reconf", used, fresh, o1, o2, e1, e2, nil, nil, []string{"n", "x", "v"})
 }
